@@ -749,6 +749,17 @@ func detachValue(rv reflect.Value) reflect.Value {
 		// a slice, map, pointer, function or channel read from a typed slot is a reference to what the slot referred
 		// to at that moment (its header is copied), not to the slot
 		reflect.Slice, reflect.Map, reflect.Ptr, reflect.Func, reflect.Chan:
+		// a plain value, like the one a literal or an operator gives: what holds it is not a cell that &name could
+		// point into (a variable bound to 1, to an element of [1] and to an element of a []int64 behave alike)
+		if rv.Kind() == reflect.Interface {
+			if rv.IsNil() {
+				return reflect.Zero(rv.Type())
+			}
+			return rv.Elem()
+		}
+		if rv.CanInterface() {
+			return reflect.ValueOf(rv.Interface())
+		}
 		nv := reflect.New(rv.Type()).Elem()
 		nv.Set(rv)
 		return nv
